@@ -377,6 +377,32 @@ Example c05_dehb_cache_example :
   end.
 Proof. vm_compute. repeat split. Qed.
 
+(* ---- liveness, in invariant form ----------------------------------------------------------------
+   A rung all of whose slots are handed out remains the rung being filled only while at least one of its
+   jobs is still registered as pending; i.e. as soon as every job of the rung has reported or failed
+   (on_trial_error / no config), the rung is complete and (c05_promoted_are_top) the next rung holds
+   the top list, to be resumed. *)
+Theorem c05_rung_waits_only_for_outstanding_jobs :
+  forall rss md ops st bid b sl lv,
+  check_bracket_rungs rss = true -> run_from rss md ops = Ok st ->
+  nth_error (m_brackets (s_mgr st)) bid = Some b -> current_rung_and_level b = Ok (sl, lv) ->
+  first_free_pos b = length sl ->
+  exists t s, lookup t (s_pending st) = Some (bid, s) /\ rung_index s = current_rung b /\
+              (slot_index s < length sl)%nat /\ trial_id s = Some t.
+Proof. exact rung_waits_only_for_outstanding_jobs. Qed.
+Print Assumptions c05_rung_waits_only_for_outstanding_jobs.
+
+Example c05_rung_waits_example :
+  (* 3 jobs handed out, two answered: the rung waits exactly for trial 1; after its report rung 1 is current *)
+  let rss : list rung_system := [[(3%nat, 1%Z); (1%nat, 3%Z)]] in
+  (exists st, run_from rss Min [OSuggest true; OSuggest true; OSuggest true; OReport 0 0 (Val 1); OError 2] = Ok st /\
+              map fst (s_pending st) = [1]%Z /\ map current_rung (m_brackets (s_mgr st)) = [0]%nat) /\
+  (exists st, run_from rss Min [OSuggest true; OSuggest true; OSuggest true; OReport 0 0 (Val 1); OError 2;
+                                OReport 1 0 (Val 2)] = Ok st /\
+              s_pending st = [] /\ map current_rung (m_brackets (s_mgr st)) = [1]%nat /\
+              map cur_ids (m_brackets (s_mgr st)) = [[0]]%Z).
+Proof. vm_compute. repeat split; repeat eexists. Qed.
+
 (* non-vacuity: a rung system accepted by the constructor; three workers, one job fails, the
    first rung completes with a tie, the best two (stable order) are promoted, a second bracket
    was opened while the first one waited. *)
